@@ -508,6 +508,7 @@ def run(rep, tier):
         # with fl(w - left) instead rejects fitted boxes whose left was rounded up.
         from ..engines import validators
         rep.call(validators.crop_f64, rep, prog, "C15.validator-form")
+        rep.call(validators.crop_route, rep, prog, "C15.crop-route")
         # integer arithmetic on the way to the fitted box must not wrap (a wrapped product in a
         # ratio test selects the wrong box in release builds and panics in debug builds)
         from . import c03
